@@ -60,6 +60,8 @@ mod crypto;
 mod request_call;
 mod session;
 mod tests;
+#[cfg(feature = "verif-hooks")]
+pub mod verif;
 
 pub use crate::node_info::{NodeAddress, NodeContact};
 
@@ -241,6 +243,10 @@ impl Handler {
         key: Arc<RwLock<CombinedKey>>,
         config: Config,
     ) -> Result<HandlerReturn, std::io::Error> {
+        #[cfg(feature = "verif-hooks")]
+        if let Some(scripted) = crate::verif::scripted::take() {
+            return Ok(scripted);
+        }
         let (exit_sender, exit) = oneshot::channel();
         // create the channels to send/receive messages from the application
         let (handler_send, service_recv) = mpsc::unbounded_channel();
@@ -371,6 +377,8 @@ impl Handler {
                     self.handle_request_timeout(node_address, active_request).await;
                 }
                 Some(Ok((node_address, _challenge))) = self.active_challenges.next() => {
+                    #[cfg(feature = "verif-hooks")]
+                    crate::verif::hit("handler.challenge_expired");
                     // A challenge has expired. Drop the expected-response entry added when the
                     // WHOAREYOU was sent, otherwise the packet filter permits this address
                     // indefinitely.
@@ -467,6 +475,8 @@ impl Handler {
     ) {
         if request_call.retries() >= self.request_retries {
             trace!(%node_address, "Request timed out");
+            #[cfg(feature = "verif-hooks")]
+            crate::verif::hit("handler.request_timed_out");
             // Remove the request from the awaiting packet_filter
             self.remove_expected_response(node_address.socket_addr);
             // The request has timed out. We keep any established session for future use.
@@ -506,6 +516,8 @@ impl Handler {
             || self.is_awaiting_session_to_be_established(&node_address)
         {
             trace!(%node_address, "Request queued for node");
+            #[cfg(feature = "verif-hooks")]
+            crate::verif::hit("handler.request_queued_pending");
             self.pending_requests
                 .entry(node_address)
                 .or_default()
@@ -683,6 +695,8 @@ impl Handler {
                 node = %request_call.contact(),
                 "Authentication response already sent. Dropping session.",
             );
+            #[cfg(feature = "verif-hooks")]
+            crate::verif::hit("handler.second_whoareyou");
             self.fail_request(request_call, RequestError::InvalidRemotePacket, true)
                 .await;
             return;
@@ -914,6 +928,8 @@ impl Handler {
                         %node_address,
                         "Authentication header contained invalid signature. Ignoring packet from node",
                     );
+                    #[cfg(feature = "verif-hooks")]
+                    crate::verif::hit("handler.invalid_signature_reinsert");
                     // insert back the challenge
                     self.active_challenges.insert(node_address, *challenge);
                 }
@@ -922,6 +938,8 @@ impl Handler {
                         error = ?e,
                         "Invalid Authentication header. Dropping session",
                     );
+                    #[cfg(feature = "verif-hooks")]
+                    crate::verif::hit("handler.handshake_error_after_challenge_consumed");
                     self.fail_session(&node_address, RequestError::InvalidRemotePacket, true)
                         .await;
                 }
@@ -987,6 +1005,8 @@ impl Handler {
             ?message_nonce,
             "Replaying active requests",
         );
+        #[cfg(feature = "verif-hooks")]
+        crate::verif::hit("handler.replay_active_requests");
 
         let packets = if let Some(session) = self.sessions.get_mut(node_address) {
             let mut packets = vec![];
@@ -1060,6 +1080,8 @@ impl Handler {
                     // Random packet and we should reply with a WHOAREYOU.
                     // This means we need to drop the current session and re-establish.
                     trace!(error = %e, "Decryption failed");
+                    #[cfg(feature = "verif-hooks")]
+                    crate::verif::hit("handler.decryption_failed_session_dropped");
                     debug!(
                         %node_address,
                         "Message from node is not encrypted with known session keys.",
@@ -1234,6 +1256,8 @@ impl Handler {
             // This is likely a late response and we have already failed the request. These get
             // dropped here.
             trace!(%node_address, "Late response from node");
+            #[cfg(feature = "verif-hooks")]
+            crate::verif::hit("handler.late_response");
         }
     }
 
@@ -1260,6 +1284,8 @@ impl Handler {
 
         if let Some(current_session) = self.sessions.get_mut(&node_address) {
             current_session.update(session);
+            #[cfg(feature = "verif-hooks")]
+            crate::verif::hit("handler.session_rekeyed");
             // If a session is re-established, due to a new handshake during an ongoing
             // session, we need to replay any active requests from the prior session, excluding
             // the request that was used to re-establish the session handshake.
